@@ -186,7 +186,7 @@ def cases(tag, tier):
                     ch = b[3][:pos] + (oc,) + b[3][pos:]
                     yield "child-kind=%s-in-%s" % (other, tag), G.serialise((b[0], b[1], b[2], ch), sp0)
                 yield "child-kind=%s-in-%s" % (other, tag), G.serialise((b[0], b[1], b[2], (oc,)), sp0)
-        if tier == "thorough":
+        if True:  # pairs of perturbations (both tiers)
             for (p1, k1, pe1), (p2, k2, pe2) in itertools.combinations(cs, 2):
                 for (n1, v1), (n2, v2) in itertools.product(pe1, pe2):
                     if v1 is ABSENT and v2 is ABSENT and p1[0] == p2[0] == "a":
@@ -197,6 +197,15 @@ def cases(tag, tier):
                         d = apply(apply(b, p2, v2), p1, v1) if v2 is ABSENT else apply(apply(b, p1, v1), p2, v2) if v1 is not ABSENT else apply(apply(b, p2, v2), p1, v1)
                     for sp in (sp0, sp1):
                         yield "pair:%s=%s+%s=%s" % (field_name(b, p1), n1, field_name(b, p2), n2), G.serialise(d, sp)
+
+
+def all_structure_cases(tag):
+    """thorough: every single perturbation on EVERY structure of the kind (all optional-attribute subsets, 0..2 children)"""
+    sp0 = G.Spelling()
+    for b in G.structures(tag, 2, full_child_opts=True):
+        for path, kind, perts in constrained_slots(b):
+            for name, val in perts:
+                yield "field=%s,value=%s" % (field_name(b, path), name), G.serialise(apply(b, path, val), sp0)
 
 
 def problems(obj):
@@ -275,7 +284,12 @@ def run_shard(shard):
     res = {"evaluations": 0, "accepted": 0, "rejected": 0, "distinct": 0, "violations": [], "samples": [], "counters": {}}
     sigs = {}
     seen = set()
-    for label, text in cases(tag, tier):
+    import itertools as _it
+
+    gen = cases(tag, tier)
+    if tier == "thorough" and tag != "@toplevel":
+        gen = _it.chain(gen, all_structure_cases(tag))
+    for label, text in gen:
         if text in seen:
             continue
         seen.add(text)
